@@ -276,6 +276,30 @@ func genC15(r *Rng, n int, tier string, emit func(Case)) {
 			}
 			emit(Case{"kind": "parse", "src": s, "bucket": "deep"})
 		case 10: // regular-expression literals assembled from every group / class / escape / quantifier opener, cut at any point
+			if rr.Chance(1, 3) {
+				// string literals assembled from every kind of escape sequence - ES5's, the octal ones, ES2015's code point escapes with
+				// values inside and beyond Unicode, lone surrogates, line continuations - cut at any point, in every kind of quotes
+				esc := []string{"\\n", "\\x41", "\\xe9", "\\xZ", "\\x4", "\\u0041", "\\u00e9", "\\uD800", "\\uDFFF", "\\uD83D\\uDE00", "\\u12", "\\u", "\\u{41}", "\\u{1F600}",
+					"\\u{10FFFF}", "\\u{110000}", "\\u{FFFFFFFF}", "\\u{FFFFFFFFFFFFFFFFF}", "\\u{}", "\\u{", "\\u{12", "\\u{-1}", "\\u{zz}", "\\0", "\\00", "\\8", "\\377", "\\400", "\\777",
+					"\\\n", "\\\r\n", "\\\u2028", "\\'", "\\\"", "\\`", "\\\\", "${", "${x}", "}", "a", "é", " ", "\\c", "\\v", "\\b"}
+				var b strings.Builder
+				for j := 0; j < rr.Range(1, 6); j++ {
+					b.WriteString(esc[rr.Intn(len(esc))])
+				}
+				body := b.String()
+				if rr.Chance(1, 4) {
+					rs := []rune(body)
+					body = string(rs[:rr.Intn(len(rs)+1)])
+				}
+				q := []string{"'", "\"", "`"}[rr.Intn(3)]
+				lit := q + body + q
+				if rr.Chance(1, 8) {
+					lit = q + body // unterminated
+				}
+				s := []string{lit, "x = " + lit, "return " + lit + ".length", "f(" + lit + ", 1)", "o = {k: " + lit + "}"}[rr.Intn(5)]
+				emit(Case{"kind": "parse", "src": s, "bucket": "strlit"})
+				break
+			}
 			pieces := []string{"(", "(?", "(?:", "(?=", "(?!", "(?<", "(?<=", "(?<!", "(?<n>", ")", "[", "[^", "]", "[a-", "\\", "\\d", "\\u", "\\u00", "\\u0041",
 				"\\x", "\\x4", "\\c", "\\cA", "\\1", "\\k<n>", "\\/", "{", "{1", "{1,", "{1,2}", "{,}", "}", "*", "+", "?", "*?", "|", "^", "$", ".", "a", "b", "0", " ", "é", "-"}
 			var b strings.Builder
